@@ -267,8 +267,9 @@ def price_st(tick):
 
 
 def vol_st(hi):
-    # any in-range volume argument, including 0 (accepted by the core) and large values
-    return st.one_of(st.integers(1, hi), st.integers(1, hi), st.integers(1, hi), st.integers(1, hi), st.sampled_from([0, 0, 2**20, 2**28]))
+    # any in-range volume argument, including 0 (accepted by the core) and large values (<= 2^26: with at most 40 calls a
+    # side stays below 2^32)
+    return st.one_of(st.integers(1, hi), st.integers(1, hi), st.integers(1, hi), st.integers(1, hi), st.sampled_from([0, 0, 2**20, 2**26]))
 
 
 def book_case_st():
@@ -463,11 +464,11 @@ def env_case_st():
         tight_price = st.integers(10, 12).map(lambda k: k * tick)
         off_price = st.integers(8, 14).map(lambda k: k * tick + 1) if tick > 1 else good_price
         op = st.one_of(
-            st.tuples(st.just("place"), st.booleans(), st.integers(1, 12), st.integers(0, 9), st.one_of(st.none(), good_price, good_price, good_price, off_price)),
+            st.tuples(st.just("place"), st.booleans(), vol_st(12), st.one_of(st.integers(0, 9), st.integers(0, MAXU32)), st.one_of(st.none(), good_price, good_price, good_price, off_price, price_st(tick))),
             st.tuples(st.just("place"), st.booleans(), st.integers(1, 12), st.integers(0, 9), good_price),
             st.tuples(st.just("place"), st.booleans(), st.integers(1, 6), st.integers(0, 9), st.one_of(st.none(), tight_price)),
             st.tuples(st.just("cancel"), st.integers(0, 65535)),
-            st.tuples(st.just("modify"), st.integers(0, 65535), st.one_of(st.none(), good_price, tight_price), st.one_of(st.none(), st.integers(1, 14))),
+            st.tuples(st.just("modify"), st.integers(0, 65535), st.one_of(st.none(), good_price, tight_price, price_st(tick)), st.one_of(st.none(), st.integers(1, 14), vol_st(14))),
             st.tuples(st.just("modify_cur"), st.integers(0, 65535), st.integers(0, 2)),
             st.tuples(st.sampled_from(["cancel_next", "modify_next"]), st.booleans(), st.integers(1, 12), st.integers(0, 9), good_price, st.one_of(st.none(), tight_price), st.integers(1, 14)),
             st.tuples(st.just("step")),
@@ -479,7 +480,7 @@ def env_case_st():
         return st.tuples(seed_orders, st.lists(op, min_size=4, max_size=32)).map(lambda t: t[0] + t[1])
 
     return st.integers(1, 10).flatmap(
-        lambda tick: st.fixed_dictionaries({"seed": st.one_of(st.integers(0, 2**64 - 1), st.integers(0, 5)), "tick": st.just(tick), "t0": st.integers(0, 1000), "step_size": st.sampled_from([50, 100, 1000, 10**6]), "trading": st.sampled_from([True, True, True, False]), "ops": ops_for(tick)})
+        lambda tick: st.fixed_dictionaries({"seed": st.one_of(st.integers(0, 2**64 - 1), st.integers(0, 5)), "tick": st.just(tick), "t0": st.one_of(st.integers(0, 1000), st.integers(0, 1000), st.integers(0, 2**62)), "step_size": st.sampled_from([50, 100, 1000, 10**6, 2**40]), "trading": st.sampled_from([True, True, True, False]), "ops": ops_for(tick)})
     )
 
 
